@@ -37,6 +37,9 @@ def names_for(ctx, c, rng):
         if d:
             names.append(d)
             names.append('.' + d)
+            # a name is matched whole: one that continues with a line feed is another name (decomposition only, the model skips them)
+            names.append(d + '\n')
+    names.append('a\n')
     return [n for n in dict.fromkeys(names) if n]
 
 
